@@ -34,6 +34,8 @@ Cases ==
   \cup {[Blank EXCEPT !.kind = "mismatch", !.n = n, !.tasks = 3] : n \in {1, 2, 256}}
   \* histories of large calls (1024 is where a 32-byte-per-entry buffer becomes a "large object"; 300: the largest everyday size)
   \cup {[Blank EXCEPT !.kind = "history", !.n = n, !.tasks = t, !.mont = m] : n \in (IF Tier = "quick" THEN {300, 1100} ELSE {300, 1024, 1100, 2100, 4200}), t \in {0, 16}, m \in BOOLEAN}
+  \* 3 / 10 / 40 rejected calls (length mismatch, through MultiExp, MultiScalar and MultiExpAffine), then well-formed calls under a watchdog
+  \cup {[Blank EXCEPT !.kind = "mismatchhist", !.n = n, !.tasks = t] : n \in {3, 10, 40}, t \in {0, 3}}
   \* the same slices passed again after in-place changes
   \cup {[Blank EXCEPT !.kind = "reuse", !.n = n, !.tasks = t] : n \in {1, 2, 8, 64, 300}, t \in {0, 1, 16}}
   \cup {[Blank EXCEPT !.kind = "multiscalar", !.n = n, !.points = p] : n \in {0, 1, 2, 3, 128, 256}, p \in {"srs", "proj", "withid"}}
